@@ -57,7 +57,7 @@ var weights = map[string]int{"burst": 6, "encrypt": 4, "decrypt": 3, "open": 1, 
 
 func TestWorld(t *testing.T) {
 	kit.Steps(kit.Pick(25, 40))
-	kit.Check(t, 100, 8000, func(t *rapid.T) { runHistory(t) })
+	kit.Check(t, 300, 8000, func(t *rapid.T) { runHistory(t) })
 }
 
 type mon struct {
